@@ -76,13 +76,17 @@ func c10(env *core.Env) {
 	w.latency = func() time.Duration { return time.Duration(c.Int("latency", maxLat+1)) * time.Second }
 	w.rt = ociauth.NewStdTransport(ociauth.StdTransportParams{Config: worldConfig{w: w}, Transport: w.tr})
 	ntasks := c.Range("ntasks", 1, 4)
+	maxCalls := 5
+	if env.Tier == "thorough" && c.Bool("deep", 1, 3) {
+		ntasks, maxCalls = c.Range("ntasks.deep", 4, 10), 8
+	}
 	type planned struct {
 		required, desired string
 		gap               time.Duration
 	}
 	plans := make([][]planned, ntasks)
 	for t := range plans {
-		for i, n := 0, c.Range("ncalls", 1, 5); i < n; i++ {
+		for i, n := 0, c.Range("ncalls", 1, maxCalls); i < n; i++ {
 			p := planned{required: scopeLattice[c.Int("required", len(scopeLattice))]}
 			if c.Bool("desired", 1, 3) {
 				p.desired = scopeLattice[c.Int("desired.scope", len(scopeLattice)-1)]
